@@ -3,6 +3,8 @@ CONSTANTS
  Groups = {"g","g:t"}
  ColonNames = {"t:u","g:t"}
  SlashNames = {}
+ PercentNames = {}
+ DeadVariants = {3}
  MaxParts = 2
  Offs = {1}
  Metas = {"m"}
@@ -21,6 +23,9 @@ CONSTANTS
  DevFetchDefaultZero = FALSE
  DevCommitUnchecked = FALSE
  DevToolWrites = FALSE
+ DevToolReaps = FALSE
+ DevEscapeFastPath = FALSE
+ DevEtcdDeletePrefix = FALSE
 INIT Init
 NEXT NextTools
 INVARIANTS EmitSched C40_Unchanged
